@@ -272,6 +272,11 @@ def cdl_num(tok):
     """-> (python number, suffix)"""
     if tok == '_':
         return ('_', '')
+    low = tok.lower().rstrip('f')
+    if low in ('nan', '-nan', '+nan'):
+        return (float('nan'), '')
+    if low in ('inf', '-inf', 'infinity', '-infinity', '+inf'):
+        return (float(low.replace('infinity', 'inf')), '')
     m = NUM_RE.match(tok)
     if not m:
         raise ValueError('number? %r' % (tok,))
@@ -399,7 +404,8 @@ def cdl_vs_logical(cdl, h, b):
                 bad.append('data of %s: %r != %r' % (vn, got, exp))
         else:
             ev = unpack_vals(v['xt'], raw)
-            if got[0] != 'num' or len(got[1]) != len(ev) or any(g != '_' and float(g) != float(e) for g, e in zip(got[1], ev)):
+            if got[0] != 'num' or len(got[1]) != len(ev) or any(g != '_' and float(g) != float(e) and not (float(g) != float(g) and float(e) != float(e))
+                                                                  for g, e in zip(got[1], ev)):
                 bad.append('data of %s: %s != %s' % (vn, got[1][:12], ev[:12]))
     return bad
 
@@ -734,6 +740,19 @@ def run_validator(T, path):
     found.sort()
     classes = [c for _, c in found]
     return rc, classes, txt
+
+
+def has_nan(h, b):
+    """does a float/double variable of the file hold a NaN (never-written bytes of a nofill file are unspecified)"""
+    lay, recsize = layout(h)
+    for v, (isrec, shape, n, ln) in zip(h.vars, lay):
+        if v['xt'] not in (5, 6):
+            continue
+        for r in range(h.numrecs if isrec else 1):
+            off = v['begin'] + (recsize * r if isrec else 0)
+            if any(x != x for x in unpack_vals(v['xt'], b[off:off + n])):
+                return True
+    return False
 
 
 def parse_offsets(txt):
@@ -1311,7 +1330,7 @@ def _run(V, rng, tier, seed, tree, wd):
         except DecodeError as ex:
             fail('library-file-undecodable', 'independent decoder rejects a library-written file: %s' % ex, replay)
             continue
-        files[key] = dict(path=path, bytes=b, h=h, hl=hl, L=None)
+        files[key] = dict(path=path, bytes=b, h=h, hl=hl, L=None, nan=has_nan(h, b), script=p.text(), nprocs=npr)
         lean.ask(('V', key), 'V ' + hexof(b))
         lean.ask(('D', key, key), 'D %s %s' % (hexof(b), hexof(b)))
         pair_res[(key, key)] = {'cdf': r['cdf'], 'mpi1': r['mpi']}
@@ -1417,8 +1436,13 @@ def _run(V, rng, tier, seed, tree, wd):
         # specification side of the model agrees with the construction
         if m[3] != ('1' if equal else '0'):
             ties.append(('logicalEq', 'pair %s/%s (%s): Tools.logicalEqB says %s, construction says equal=%s' % (a, b, tag, m[3], equal)))
+        if a[0] == 'p':
+            replay = dict(tag=tag, script=files[a]['script'], nprocs=files[a]['nprocs'])
         for tool, got, mod in [('cdfdiff', r['cdf'], m[1])] + [('ncmpidiff', r['mpi%d' % np_], m[2]) for np_ in np_list if 'mpi%d' % np_ in r]:
             out_, rc_ = got
+            if tool == 'ncmpidiff' and (files[a].get('nan') or files[b].get('nan')):
+                count('ncmpidiff pair with NaN values (typed comparison, outside the model)')
+                continue
             same = (rc_ == 0)
             if same != equal:
                 if equal:
